@@ -148,6 +148,7 @@ pub struct Blackboard {
     pub listeners: Vec<BusListenerCookie>,
     pub callee_serials: Vec<u32>,
     pub payload_ctr: u64,
+    pub deep_payloads: u64,
 }
 
 pub type SharedBlackboard = Rc<RefCell<Blackboard>>;
@@ -270,6 +271,46 @@ pub fn segmented_payload(version: ProtocolVersion, unique: u64, shape: u32) -> S
     sv
 }
 
+/// A well-formed value nested as deeply as the serializer accepts (the limit is found by trial, so
+/// the harness does not restate the repository's constant): `Some(Some(..(leaf)))` or nested
+/// one-element vectors, optionally one level short of the limit.
+pub fn deep_value(unique: u64, variant: u32) -> Value {
+    let wrap = |v: Value, vecs: bool| {
+        if vecs {
+            Value::Vec(vec![v])
+        } else {
+            Value::Some(Box::new(v))
+        }
+    };
+    let build = |k: u32| {
+        let mut v = if variant & 2 == 0 {
+            Value::U64(unique)
+        } else {
+            Value::Vec(vec![Value::U64(unique), Value::U8(1)])
+        };
+        for i in 0..k {
+            v = wrap(v, variant & 4 != 0 && i % 2 == 0);
+        }
+        v
+    };
+    let mut k = 40;
+    while k > 0 && SerializedValue::serialize(build(k)).is_err() {
+        k -= 1;
+    }
+    if variant & 1 == 1 && k > 0 {
+        k -= 1;
+    }
+    build(k)
+}
+
+/// Serializes in the epoch a peer of `version` produces; `None` when the repository's converter
+/// refuses the value.
+pub fn try_encode_for(version: ProtocolVersion, value: &Value) -> Option<SerializedValue> {
+    let mut sv = SerializedValue::serialize(value).ok()?;
+    sv.convert(None, version).ok()?;
+    Some(sv)
+}
+
 /// Serializes in the epoch a peer of `version` produces.
 pub fn encode_for(version: ProtocolVersion, value: &Value) -> SerializedValue {
     let mut sv = SerializedValue::serialize(value).expect("payload serializes");
@@ -315,6 +356,14 @@ impl Resolver<'_> {
         }
         if shape % 9 == 8 {
             return segmented_payload(self.version, unique, shape);
+        }
+        if shape % 11 == 10 {
+            // Nesting at (or one short of) the depth limit. A pre-1.20 actor whose own encoder
+            // refuses it sends a flat value instead (the cross-epoch direction is what counts).
+            if let Some(sv) = try_encode_for(self.version, &deep_value(unique, shape / 11)) {
+                self.bb.borrow_mut().deep_payloads += 1;
+                return sv;
+            }
         }
         encode_for(self.version, &payload_value(unique, shape))
     }
